@@ -38,6 +38,8 @@ struct C19 : Prop {
 		if (budget_impeded) { std::vector<const cfg::Board *> sa; for (auto &b : w.boards) if (b.present && b.secack()) sa.push_back(&b); if (sa.empty()) budget_impeded = false; else bb = sa[r.below(sa.size())]; }
 		if (budget_impeded) { J bus = plan["bus"]; J da = J::arr(); da.push((int) MSG_SYS_SW_VERSION); bus.set("drop_answers", da); plan.set("bus", bus); }
 		plan.set("budget_impeded", budget_impeded);
+		// three runs in ten: some writes to the line take 2-20 ms (the receiver is inside the write callback with a mirror while others want to send)
+		if (r.chance(300)) { J bus = plan["bus"]; J sw = J::arr(); for (int i = 0, n = (int) r.range(2, 8); i < n; i++) { J e = J::arr(); e.push((int) r.range(10, 90)); e.push((int) r.range(2000, 20000)); sw.push(e); } bus.set("slow_writes", sw); plan.set("bus", bus); }
 		// one run in six: one answer of the start-up dialogue is duplicated on the bus (a stray feature confirmation must not change which boards are Secure-ACK boards)
 		if (r.chance(170)) { J bus = plan["bus"]; J td = J::arr(); J e = J::arr(); e.push((int) MSG_FEATURE); e.push((int) r.range(1, 6)); e.push((int) r.below(2)); td.push(e); bus.set("type_dup_once", td); plan.set("bus", bus); }
 		J se = cfg::normal_session(0, 0);
